@@ -2,6 +2,8 @@
 progress_dumb.rs).  The decision logic is proved (Props/C16.v); the run-time facts are
 exercised black-box on the real binary."""
 import random
+import signal
+import time
 import shutil
 import tempfile
 
@@ -229,6 +231,38 @@ def main(tier, seed, replay=None):
             if rc == 0 or len(started) != 1:
                 run.report_failure(None, "a command died from SIGINT under -k %s: %d commands were started (an interruption stops the build), n2 exit %d" % (
                     kflag, len(started), rc), {"stdout": so.decode("utf-8", "replace")[-300:], "rc": rc, "started": started})
+        # ... and when the user interrupts the whole process group (ctrl-c): commands die, n2 stops starting steps and reports failure
+        d4 = os.path.join(base, "c4")
+        os.makedirs(d4)
+        open(os.path.join(d4, "build.ninja"), "w").write(
+            "rule slow\n  command = echo $out >> started.log; sleep 30; touch $out\nbuild w1: slow\nbuild w2: slow\nbuild w3: slow\nbuild w4: slow\n")
+        p4 = subprocess.Popen([n2, "-j", "2", "-k", "10", "w1", "w2", "w3", "w4"], cwd=d4, stdout=subprocess.PIPE, stderr=subprocess.STDOUT,
+                              stdin=subprocess.DEVNULL, env=ENV, preexec_fn=lambda: (_default_signals(), os.setpgid(0, 0)))
+        t0 = time.time()
+        while time.time() - t0 < 20:
+            if os.path.exists(os.path.join(d4, "started.log")) and len(open(os.path.join(d4, "started.log")).read().split()) >= 2:
+                break
+            time.sleep(0.05)
+        time.sleep(0.3)
+        try:
+            os.killpg(p4.pid, signal.SIGINT)
+        except ProcessLookupError:
+            pass
+        try:
+            so4, _ = p4.communicate(timeout=25)
+            rc4 = p4.returncode
+        except subprocess.TimeoutExpired:
+            os.killpg(p4.pid, signal.SIGKILL)
+            so4, _ = p4.communicate()
+            rc4 = None
+        started4 = open(os.path.join(d4, "started.log")).read().split() if os.path.exists(os.path.join(d4, "started.log")) else []
+        stats["signals"] += 1
+        where4 = {"stdout": so4.decode("utf-8", "replace")[-400:], "rc": rc4, "started": started4}
+        if rc4 is None:
+            run.report_failure(None, "ctrl-c (SIGINT to the process group): n2 was still running 25 s later", where4)
+        elif rc4 == 0 or len(started4) != 2 or any(os.path.exists(os.path.join(d4, "w%d" % i)) for i in range(1, 5)):
+            run.report_failure(None, "ctrl-c (SIGINT to the process group) with -j 2 -k 10: exit %s, %d commands started (2 were running; none may start afterwards)" % (
+                rc4, len(started4)), where4)
     finally:
         shutil.rmtree(base, ignore_errors=True)
     run.coverage.update(info)
